@@ -194,6 +194,99 @@ Definition play (v : variant) (fuel : nat) (t0 tock0 : T) (rs : list step) (os :
   let (tm, w1) := timer_init tock0 w in
   session v fuel tock0 tm w1 runs.
 
+(* ---- Doist.ado, real branch: AsyncTimer over the event loop's clock ----
+
+       atimer = timing.AsyncTimer(duration=self.tock)   # created inside ado(): the tock of call time
+       atimer.start()
+       while True:
+           self.recur()
+           if self.real:
+               while not atimer.expired:
+                   await asyncio.sleep(max(0.0, atimer.remaining))
+               atimer.restart()
+
+   AsyncTimer is the plain Timer (no ._last, no retrograde handling) reading
+   asyncio.get_event_loop().time().  The same [world] serves as the loop clock:
+   [now] is loop.time(), [read] one call of it, [sleep] one awaited
+   asyncio.sleep.  (The loop clock is monotonic, so its scripts have j = 0; the
+   model does not need that.) *)
+Record atimer := { a_start : T; a_stop : T }.
+
+(* AsyncTimer(duration=d): ._start = time.time() is overwritten at once by .start(duration=d):
+   ._start = loop.time(); ._stop = ._start + d *)
+Definition atimer_init (d : T) (w : world) : atimer * world :=
+  let (r, w1) := read w in ({| a_start := r; a_stop := tadd r d |}, w1).
+
+(* .start(): duration = ._stop - ._start; ._start = loop.time(); ._stop = ._start + duration *)
+Definition atimer_start (tm : atimer) (w : world) : atimer * world :=
+  let d := tsub (a_stop tm) (a_start tm) in
+  let (r, w1) := read w in ({| a_start := r; a_stop := tadd r d |}, w1).
+
+(* .restart() = .start(duration=self.duration, start=self._stop) *)
+Definition atimer_restart (tm : atimer) : atimer :=
+  let d := tsub (a_stop tm) (a_start tm) in
+  {| a_start := a_stop tm; a_stop := tadd (a_stop tm) d |}.
+
+(* while not atimer.expired: await asyncio.sleep(max(0.0, atimer.remaining))
+   expired = loop.time() >= ._stop; remaining = ._stop - loop.time() *)
+Fixpoint await (fuel : nat) (tm : atimer) (w : world) (acc : list T) : option (world * list T) :=
+  match fuel with
+  | O => None
+  | S f =>
+    let (r1, w1) := read w in
+    if tleb (a_stop tm) r1 then Some (w1, rev acc) else
+    let (r2, w2) := read w1 in
+    let d := max0 (tsub (a_stop tm) r2) in
+    await f tm (sleep w2 d) (d :: acc)
+  end.
+
+Fixpoint acycles (fuel : nat) (tm : atimer) (w : world) (works : list step)
+  : option (list cyc * atimer * world) :=
+  match works with
+  | [] => Some ([], tm, w)
+  | wk :: rest =>
+    match await fuel tm (advance w wk) [] with
+    | None => None
+    | Some (w1, sl) =>
+      match acycles fuel (atimer_restart tm) w1 rest with
+      | None => None
+      | Some (cs, tmf, wf) =>
+        Some ({| c_now := now w; c_mono := mono w; c_stop := a_stop tm; c_sleeps := sl; c_log := log w |} :: cs, tmf, wf)
+      end
+    end
+  end.
+
+(* one asyncio.run(doist.ado()) with real=True; [tock] is doist.tock when ado is called *)
+Definition ado_real (fuel : nat) (tock : T) (w : world) (works : list step) : option (run_out * world) :=
+  let (tm0, w0) := atimer_init tock w in
+  let (tm1, w1) := atimer_start tm0 w0 in
+  let w1 := clear_log w1 in
+  match acycles fuel tm1 w1 works with
+  | None => None
+  | Some (cs, tmf, wf) =>
+    Some ({| r_now := now w1; r_mono := mono w1; r_cycles := cs; r_end_now := now wf; r_end_mono := mono wf |}, wf)
+  end.
+
+(* a session of ado() runs on one Doist: nothing of a run survives into the next but the clock *)
+Fixpoint asession (fuel : nat) (tock : T) (w : world) (runs : list run_in) : option (list run_out) :=
+  match runs with
+  | [] => Some []
+  | r :: rest =>
+    let tock1 := match i_tock r with Some x => x | None => tock end in
+    match ado_real fuel tock1 (advance w (i_pre r)) (i_works r) with
+    | None => None
+    | Some (o, w1) =>
+      match asession fuel tock1 w1 rest with
+      | None => None
+      | Some os => Some (o :: os)
+      end
+    end
+  end.
+
+Definition aplay (fuel : nat) (t0 tock0 : T) (rs : list step) (os : list slp) (runs : list run_in)
+  : option (list run_out) :=
+  asession fuel tock0 {| now := t0; mono := tzero; reads := rs; overs := os; log := [] |} runs.
+
 End RealTime.
 
 (* ---- spec-level quantities used by the theorems (exact time) ---- *)
@@ -240,7 +333,8 @@ Definition bad (w : @world Z) : nat := (bad_reads (reads w) + bad_overs (overs w
 Record fcyc := { f_now : float; f_mono : float; f_stop : float; f_sleeps : list float }.
 Record frun := { f_start : float; f_start_mono : float; f_cycles : list fcyc; f_end : float; f_end_mono : float }.
 
-Record case := { k_t0 : float; k_tock0 : float;
+Record case := { k_async : bool;   (* true: asyncio.run(doist.ado()) runs, the world is the loop clock *)
+                 k_t0 : float; k_tock0 : float;
                  k_reads : list (float * float); k_overs : list (@slp float);
                  k_runs : list (@run_in float);
                  k_obs : list frun }.
@@ -263,25 +357,30 @@ Definition run_same (r : @run_out float) (o : frun) : bool :=
   all2 cyc_same (r_cycles r) (f_cycles o) &&
   float_same (r_end_now r) (f_end o) && float_same (r_end_mono r) (f_end_mono o).
 
+Definition play_case (c : case) : option (list (@run_out float)) :=
+  if k_async c then aplay fuel_per_wait (k_t0 c) (k_tock0 c) (k_reads c) (k_overs c) (k_runs c)
+  else play VSync fuel_per_wait (k_t0 c) (k_tock0 c) (k_reads c) (k_overs c) (k_runs c).
+
 Definition check_case (c : case) : bool :=
-  match play VSync fuel_per_wait (k_t0 c) (k_tock0 c) (k_reads c) (k_overs c) (k_runs c) with
+  match play_case c with
   | None => false
   | Some outs => all2 run_same outs (k_obs c)
   end.
 
 (* branch classifier per cycle: 0 no wait (already expired), 1 one sleep, 2 several sleeps,
    3 a retrograde reading was seen during the cycle (deadline shifted), 4 wait asked for a zero sleep *)
-Definition n_branches : nat := 5.
+Definition n_branches : nat := 9.   (* 5..8: branches 0, 1, 2, 4 for ado() runs (the loop clock has no retrograde) *)
 Definition cyc_branches (c : @cyc float) : list nat :=
   (match c_sleeps c with [] => [0%nat] | [_] => [1%nat] | _ => [2%nat] end) ++
   (if existsb (fun d => PrimFloat.eqb d PrimFloat.zero) (c_sleeps c) then [4%nat] else []).
 Definition case_branches (c : case) : list nat :=
-  match play VSync fuel_per_wait (k_t0 c) (k_tock0 c) (k_reads c) (k_overs c) (k_runs c) with
+  match play_case c with
   | None => []
   | Some outs =>
-    concat (map (fun r => concat (map cyc_branches (r_cycles r)) ++
+    map (fun b => if k_async c then (if Nat.ltb b 3 then b + 5 else b + 4)%nat else b)
+    (concat (map (fun r => concat (map cyc_branches (r_cycles r)) ++
                           (* 3: the log of some cycle shows a reading below its predecessor *)
                           (if existsb (fun c => let l := c_log c in
                                         existsb (fun p => PrimFloat.ltb (fst p) (snd p)) (combine l (tl l))) (r_cycles r)
-                           then [3%nat] else [])) outs)
+                           then [3%nat] else [])) outs))
   end.
